@@ -274,4 +274,7 @@ Definition once_each_b (n : nat) (l : list N) : bool :=
   (length l =? n)%nat && forallb (fun i => (count_n (N.of_nat i) l =? 1)%nat) (seq 0 n).
 Definition live_ranges_b (n : nat) (stored : list (list N)) : bool :=
   forallb contig_b stored && once_each_b n (concat stored).
+(* what the model's assignment puts into shard i *)
+Definition model_stored (out : list assignment) (i : nat) : list N :=
+  concat (map (fun a => if (a_idx a =? i)%nat then map N.of_nat (seq (a_start a) (a_end a - a_start a)) else []) out).
 Close Scope N_scope.
